@@ -340,13 +340,16 @@ fn job_val<K: VKind>(n: u32, srcs: &[Vec<u32>], k: usize, seed: u64, rep: &mut R
 pub fn run(cfg: &Cfg) -> i32 {
     let start = Instant::now();
     let checks = Checks { canon: true, structure: true, rc: true, node_count: true };
-    if let Some(path) = &cfg.replay {
+    if let Some(path) = cfg.replay.as_ref().filter(|p| replay_case_is(p, |c| (c["ops"].is_array() && c["cfg"].is_object()) || (is_bool_kind(c) && c["src"].is_array()))) {
         let v: serde_json::Value = serde_json::from_str(&std::fs::read_to_string(path).expect("replay file")).expect("json");
         let case = &v["case"];
         let r = match case["kind"].as_str().unwrap_or("") {
             "bdd" if case.get("ops").is_some() => replay_case::<BddK>("C08", case, checks).map(|_| ()),
             "bcdd" if case.get("ops").is_some() => replay_case::<BcddK>("C08", case, checks).map(|_| ()),
             "zbdd" if case.get("ops").is_some() => replay_case::<ZbddK>("C08", case, checks).map(|_| ()),
+            "mtbdd-i64" => vreplay::<MtI64K>(case, checks).map(|_| ()),
+            "mtbdd-f64" => vreplay::<MtF64K>(case, checks).map(|_| ()),
+            "tdd" => vreplay::<TddK>(case, checks).map(|_| ()),
             k => {
                 // exhaustive-suite case: re-run exactly this (src, request)
                 let n = case["n"].as_u64().unwrap_or(3) as u32;
